@@ -6,8 +6,50 @@ open Schc
 
 def bitsStr (l : List Nat) : String := String.ofList (l.map fun x => if x == 0 then '0' else if x == 1 then '1' else '?')
 
+/-- one token of a `seq` line: (new state, observation) -/
+def seqStep (b : Buf) (tok : String) : Option (Py (Buf × Option String)) :=
+  match tok.splitOn "," with
+  | ["v"] => some (do let (v, b') ← b.value; pure (b', some (toString v)))
+  | ["h"] => some (do let (k, b') ← b.hashKey; pure (b', some (hexOfBytes k)))
+  | ["i"] => some (do let l ← b.iter; pure (b, some (if l.isEmpty then "-" else bitsStr l)))
+  | ["n"] => some (pure (b, some (toString b.length)))
+  | ["e", o] => do
+    let o ← parseBuf o
+    pure (do let o ← o; let (r, _) ← Buf.eq b o; pure (b, some (toString r)))
+  | ["g", s, e] => do
+    let s ← s.toInt?; let e ← e.toInt?
+    pure (do let r ← b.getSlice (some s) (some e); pure (b, some (showBuf r)))
+  | ["S", i, j, v] => do
+    let i ← i.toNat?; let j ← j.toNat?; let v ← parseBuf v
+    pure (do let v ← v; let b' ← b.setRange i j v; pure (b', none))
+  | ["B", i, v] => do
+    let i ← i.toNat?; let v ← parseBuf v
+    pure (do let v ← v; let b' ← b.setRange i (i + 1) v; pure (b', none))
+  | ["H", k] => do
+    let k ← k.toInt?
+    pure (do let (_, b') ← b.shift k true; pure (b', none))
+  | ["P", p] => do
+    let p ← padOfStr p
+    pure (do let (_, b') ← b.pad p true; pure (b', none))
+  | _ => none
+
+def seqRun : Buf → List String → List String → Option (Py (Buf × List String))
+  | b, [], obs => some (pure (b, obs.reverse))
+  | b, t :: ts, obs => do
+    let r ← seqStep b t
+    match r with
+    | .error e => some (.error e)
+    | .ok (b', o) => seqRun b' ts (match o with | some x => x :: obs | none => obs)
+
 def bufOp (toks : List String) : Option String :=
   match toks with
+  | "seq" :: b :: rest => do
+    let b ← parseBuf b
+    match b with
+    | .error e => pure ("err:" ++ errName e)
+    | .ok b =>
+      let r ← seqRun b rest []
+      pure (showPy (fun (x : Buf × List String) => "|".intercalate x.2 ++ " ; " ++ showBuf x.1) r)
   | ["new", h, n, p] => do
     let c ← bytesOfHex h; let n ← n.toNat?; let p ← padOfStr p
     pure (showPy showBuf (Buf.new c n p))
